@@ -7,6 +7,13 @@ import subprocess
 VERIF = os.path.dirname(os.path.dirname(os.path.abspath(__file__)))
 
 CHECKS = {
+ "C01": ("exploration", "§4 C01",
+         "Full simulated runs of the real scheduler on the lattice engine whose crossing probabilities are "
+         "known exactly; scenario grid over move mixes, caps, worker counts, length-correlated completion "
+         "orders, clean and crash restarts; R independent replicas per scenario, 6-sigma replica band with "
+         "confirmation re-run.",
+         "statistical: quick detects biases of a few percent, thorough below one percent; 4/S allowance for start-up and ratio-estimator bias.",
+         "deterministic simulation: seeded multi-worker schedules and restart sequences, statistical oracle against closed-form values"),
  "C02": ("exploration", "§4 C02",
          "Observer on every P matrix the real scheduler computes in simulated multi-worker / wire-fencing "
          "histories, compared with exact permanent ratios (Fractions) on the idle block plus structural "
@@ -74,7 +81,7 @@ NOT_APPLICABLE = {
  "C20": "algebraic symmetry laws over coordinates; no schedule, time or fault dimension (DESIGN.md §6)",
 }
 PENDING = {k: "check under construction (simulation layer not built yet); not claimed until it runs clean on the unchanged tree"
-           for k in ("C01", "C08", "C12", "C13")}
+           for k in ("C08", "C12", "C13")}
 
 
 def main():
